@@ -29,7 +29,7 @@ ISSUE_CODES = [
     (r"constructor", "go-constructor-shape"),
     (r"decode type .* for member|put_\w+ of member|get_\w+ into member", "step-type-vs-member-type"),
     (r"Self \{ … \} lists", "rust-ctor-fields"),
-    (r"register.*not a class|not an emitted struct|undefined class|undeclared factory|undefined factor", "reference-to-undeclared"),
+    (r"register.*not a class|not an emitted struct|undefined class|undeclared factory|undefined factor|undeclared helper", "reference-to-undeclared"),
     (r"length patch", "length-patch-shape"),
     (r"match arm", "rust-match-arm-shape"),
     (r"indent", "python-indentation"),
@@ -266,6 +266,8 @@ def meta_inline_rewrite(p, rng):
                 e["name"] = f["name"] if f["named"] else f["meta"]
                 e["repeat"] = f["repeat"]
                 e["doc"] = None
+                if f.get("pad"):
+                    e["pad"] = f["pad"]
                 pk["fields"][i] = e
     return p
 
@@ -326,18 +328,31 @@ def run_c08(ctx):
             ctx.count("pairs_identical")
             ctx.sample({"rewrite": name, "verdict": "all six outputs byte-identical"}, 3)
     # attribute locality: a padding attribute on one MetaData-typed field must not change the others
-    loc = ("MetaData M {\n    char[6] Sym `s`,\n}\n\nroot packet P {\n    Sym a,\n    %sSym b,\n    Sym c,\n}\n")
-    base = harness.run_ops([{"op": "gen", "text": loc % "", "order": ALL, "fresh": True}])[0]
-    attr = harness.run_ops([{"op": "gen", "text": loc % "@leftPad('0')\n    ", "order": ALL, "fresh": True}])[0]
-    fa, fb = checks_front.files_of(base), checks_front.files_of(attr)
-    if fa and fb:
-        for lang in pipeline.CODEC_TARGETS:
-            for k in fa[lang]:
-                la = [l for l in fa[lang][k].split("\n") if re.search(r"\b[aAcC]\b", l) and "6" in l]
-                lb = [l for l in fb[lang].get(k, "").split("\n") if re.search(r"\b[aAcC]\b", l) and "6" in l]
-                if la != lb:
-                    ctx.finding("attribute-leaks/" + lang, "a padding attribute written on field b changes the code of fields a / c", {"dsl": loc % "@leftPad('0')\n    ", "target": lang, "file": k, "before": la[:6], "after": lb[:6]})
-        ctx.count("attribute_locality_checked")
+    # (char[n] and zchar[n] entries; the attributed field first / in the middle / last; another packet using the entry)
+    for ty in ("char[6]", "zchar[6]"):
+        for pos in (0, 1, 2):
+            for attr_txt in ("@leftPad('0')", "@rightPad('0')", "@leftPad(' ')"):
+                names = ["a", "b", "c"]
+                def prog(with_attr):
+                    body = ""
+                    for i, nm in enumerate(names):
+                        body += "    %sSym %s,\n" % ((attr_txt + "\n    ") if (with_attr and i == pos) else "", nm)
+                    return ("MetaData M {\n    %s Sym `s`,\n}\n\nroot packet P {\n%s    Q q,\n}\n\npacket Q {\n    Sym d,\n}\n" % (ty, body))
+                base, attr = harness.run_ops([{"op": "gen", "text": prog(False), "order": ALL, "fresh": True},
+                                              {"op": "gen", "text": prog(True), "order": ALL, "fresh": True}])
+                fa, fb = checks_front.files_of(base), checks_front.files_of(attr)
+                if not (fa and fb):
+                    continue
+                others = [n for i, n in enumerate(names) if i != pos] + ["d"]
+                pat = r"\b(%s)\b" % "|".join(others + [n.upper() for n in others])
+                for lang in pipeline.CODEC_TARGETS:
+                    for k in fa[lang]:
+                        la = [l for l in fa[lang][k].split("\n") if re.search(pat, l) and "6" in l]
+                        lb = [l for l in fb[lang].get(k, "").split("\n") if re.search(pat, l) and "6" in l]
+                        if la != lb:
+                            ctx.finding("attribute-leaks/" + lang, "a padding attribute written on field %s changes the code of the other fields typed by the same MetaData entry" % names[pos],
+                                        {"dsl": prog(True), "target": lang, "file": k, "before": la[:6], "after": lb[:6]})
+                ctx.count("attribute_locality_checked")
     if ctx.broken and not ctx.violations:
         ctx.finding("obligation/C08", "; ".join(ctx.broken)[:500], {"broken": ctx.broken}, False)
     ctx.cov.update({"evaluations": len(pairs), "distinct_nontrivial": len({b for _, _, b in pairs}),
